@@ -75,6 +75,13 @@ func Same(t *idl.Type, a, b *Val) string {
 		}
 		return SameStruct(t.Struct, a, b)
 	case idl.Double:
+		// an untyped Go constant holding an integral double is dumped as an integer
+		if a.T == "i" {
+			a = Dbl(float64(a.Int64()))
+		}
+		if b.T == "i" {
+			b = Dbl(float64(b.Int64()))
+		}
 		if a.T == "d" && b.T == "d" {
 			x, y := a.Float(), b.Float()
 			if (x != x && y != y) || a.D == b.D {
@@ -158,6 +165,9 @@ func Complete(s *idl.Struct, v *Val) *Val {
 	}
 	return out
 }
+
+// CompleteValue applies Complete to every struct inside a value of type t.
+func CompleteValue(t *idl.Type, v *Val) *Val { return completeIn(t, v) }
 
 func completeIn(t *idl.Type, v *Val) *Val {
 	t = t.Final()
